@@ -186,8 +186,25 @@ def mk_run(rng, auth=None, force=None, bytewise=False):
     plugins = quiet_plugins(rng)
     if rng.random() < 0.05:
         plugins.insert(rng.randrange(len(plugins) + 1), ['A'])
-    return {'auth': auth, 'dis': rng.choice([[], [], ['x-drop'], ['proxy-authorization']]), 'plugins': plugins,
+    case = {'auth': auth, 'dis': rng.choice([[], [], ['x-drop'], ['proxy-authorization']]), 'plugins': plugins,
             'evs': evs, 'vk': kind}
+    if rng.random() < 0.10 and not bytewise:
+        # small --client-recvbuf-size: the recv that completes the (mostly rejected) first request returns
+        # exactly a full buffer and more client bytes (further requests) are already waiting in the socket
+        n = rng.choice([64, 128])
+        case['rbuf'] = n
+        ev = evs[0]
+        if rng.random() < 0.8:
+            ev[1] = c09.pad_req(ev[1], n)
+        ev[3] = []
+        extra = [follow_req(rng, auth) for _ in range(rng.randrange(1, 3))]
+        if len(ev) > 4:
+            ev[4] = extra
+        else:
+            ev.append(extra)
+        if not case['plugins']:
+            case['plugins'] = [[1, 'P', 'P', 'P', 'P', 'P', 'P']]
+    return case
 
 
 def av_impl(case):
@@ -348,6 +365,10 @@ def corpus():
                    'evs': [['F', base('GET', good), True, [9], [two]], ['C', three, [30], [four]], ['CE']]})
         cs.append({'auth': auth, 'dis': [], 'plugins': plugins, 'vk': 'packed',
                    'evs': [['F', base('POST', good + ['Content-Length: 3']) | {'b': 'abc'}, True, [], [two, three]], ['CE']]})
+    for n in (64, 128):
+        for lines in ([], ['Proxy-Authorization: Basic ' + c[:-1]], good):
+            cs.append({'auth': auth, 'dis': [], 'plugins': rec, 'vk': 'recvbuf', 'rbuf': n,
+                       'evs': [['F', c09.pad_req(base('GET', lines), n), True, [], [two, three]], ['FL'], ['FL']]})
     raw = req_bytes(base('GET', []))
     cs.append({'auth': auth, 'dis': [], 'plugins': rec, 'vk': 'corpus',
                'evs': [['F', base('GET', []), True, list(range(1, len(raw)))], ['FL']]})
@@ -422,7 +443,7 @@ def describe(case):
     return ['run', 'variant=' + case.get('vk', '?'), 'method=' + req['m'], 'form=' + req['form'],
             'segments=%d' % (len(case['evs'][0][3]) + 1 if len(case['evs'][0][3]) < 4 else 9),
             'plugins=%d' % len(case['plugins']), 'spec=%s' % ('ok' if cred_ok(case, req) else 'reject'),
-            'followups=%d' % sum(1 for e in case['evs'] if e[0] == 'C'),
+            'followups=%d' % sum(1 for e in case['evs'] if e[0] == 'C'), 'recvbuf=%s' % case.get('rbuf'),
             'packed=%d' % sum(len(e[-1]) for e in case['evs'] if e[0] in ('F', 'C') and isinstance(e[-1], list)
                               and e[-1] and isinstance(e[-1][0], dict))]
 
